@@ -295,24 +295,26 @@ Section ANSWER.
         eapply desc_firstn_skipn; eassumption.
   Qed.
 
-  Theorem answer_ok SEL : grouped_answer T P lim_of = Some SEL ->
-    result_ok c all_ref (map (fun g => (g_trace g, g_spans g)) SEL) = true.
+  Theorem answer_ok_j (J : list string -> list string -> bool) SEL :
+    (forall g, In g G -> J (g_spans g) (t_spans (mkt (g_trace g))) = true) ->
+    grouped_answer T P lim_of = Some SEL ->
+    result_ok_j J c all_ref (map (fun g => (g_trace g, g_spans g)) SEL) = true.
   Proof.
-    intros Hans. destruct (grouped_answer_spec SEL Hans) as [rest [Hperm [Hz [Hlen Htop]]]].
+    intros HJ Hans. destruct (grouped_answer_spec SEL Hans) as [rest [Hperm [Hz [Hlen Htop]]]].
     assert (HselKG : forall g, In g SEL -> In g KG).
     { intros g Hg. eapply Permutation_in; [exact Hperm|]. apply in_or_app. now left. }
     assert (HKG : forall g, In g KG -> In g G /\ In (g_trace g) L).
     { intros g Hg. split; [unfold KG in Hg; now apply filter_In in Hg|]. apply kept_traces. now apply in_map. }
     set (res := map (fun g => (g_trace g, g_spans g)) SEL).
     assert (Hkeyed : flat_map (fun r => match find_tres (fst r) all_ref with
-                                        | Some t => if same_set (snd r) (t_spans t) then [t] else []
+                                        | Some t => if J (snd r) (t_spans t) then [t] else []
                                         | None => [] end) res
                      = map (fun g => mkt (g_trace g)) SEL).
     { unfold res. clear Hperm Hz Hlen Htop Hans. induction SEL as [|g l IH]; [reflexivity|].
       cbn [map flat_map fst snd]. destruct (HKG g (HselKG g (or_introl eq_refl))) as [HgG HgL].
-      rewrite all_ref_eq, (find_mkt _ _ HgL), (grp_spans_set g HgG). cbn [app]. f_equal.
+      rewrite all_ref_eq, (find_mkt _ _ HgL), (HJ g HgG). cbn [app]. f_equal.
       rewrite <- all_ref_eq. apply IH. intros g' Hg'. apply HselKG. now right. }
-    unfold result_ok. fold res. rewrite Hkeyed. apply andb_true_iff. split; [apply andb_true_iff; split|].
+    unfold result_ok_j. fold res. rewrite Hkeyed. apply andb_true_iff. split; [apply andb_true_iff; split|].
     - unfold res. rewrite !map_length. apply Nat.eqb_refl.
     - apply distinct_strs_NoDup. unfold res. rewrite map_map. cbn [fst].
       assert (Hnd : NoDup (map g_trace (SEL ++ rest))).
@@ -336,4 +338,27 @@ Section ANSWER.
           apply Z.leb_le. rewrite <- (grp_key g) by (now apply (HKG g Hg)). rewrite <- (grp_key g') by (now apply (HKG g' (HselKG g' Hg''))).
           now apply Htop.
   Qed.
+
+
+  (* the span list of a group against the matched spans of its trace when more than 100 may match: the first 100 of a duplicate-free
+     list with the same members *)
+  Lemma NoDup_firstn {A} (l : list A) : forall k, NoDup l -> NoDup (firstn k l).
+  Proof.
+    induction l as [|x l IH]; intros k H; [destruct k; constructor|]. destruct k as [|k]; [constructor|]. cbn [firstn].
+    inversion H as [|? ? Hx Hnd]; subst. constructor; [|now apply IH]. intros Hin. apply Hx. eapply in_firstn'; exact Hin.
+  Qed.
+  Lemma grp_spans_cap g : In g G -> NoDup (map m_span g) -> NoDup (map sp_span (ms (g_trace g))) ->
+    cap_set 100 (g_spans g) (t_spans (mkt (g_trace g))) = true.
+  Proof.
+    intros Hg N1 N2. unfold cap_set, g_spans. cbn [mkt t_spans].
+    pose proof (grp_proj m_span sp_span f_span g Hg) as Hset.
+    apply andb_true_iff. split; [apply andb_true_iff; split|].
+    - apply forallb_forall. intros x Hx. apply existsb_exists. exists x. split; [|apply String.eqb_refl]. apply Hset. eapply in_firstn'; exact Hx.
+    - apply distinct_strs_NoDup. now apply NoDup_firstn.
+    - apply Nat.eqb_eq. rewrite firstn_length. f_equal. apply Permutation_length. now apply NoDup_Permutation.
+  Qed.
+
+  Theorem answer_ok SEL : grouped_answer T P lim_of = Some SEL ->
+    result_ok c all_ref (map (fun g => (g_trace g, g_spans g)) SEL) = true.
+  Proof. intros Hans. apply (answer_ok_j same_set SEL); [|exact Hans]. intros g Hg. now apply grp_spans_set. Qed.
 End ANSWER.
